@@ -67,6 +67,10 @@ def run_l2(run):
                     line("d", render(td!(l, d, count = move || n)));
                     line("tp", leptos_i18n::plurals::td_plural!(l, count = move || n, one => "one", _ => "other").to_string());
                     line("tpo", leptos_i18n::plurals::td_plural_ordinal!(l, count = move || n, one => "one", _ => "other").to_string());
+                    // every accepted arm: zero one two few many, and `_` for the rest (a call WITHOUT a `_` arm does not compile even when
+                    // it names all six forms: the macro writes a stray comma after the arms - noted in DESIGN.md, outside the listed properties)
+                    line("tp6", leptos_i18n::plurals::td_plural!(l, count = move || n, zero => "zero", one => "one", two => "two", few => "few", many => "many", _ => "other").to_string());
+                    line("tpo6", leptos_i18n::plurals::td_plural_ordinal!(l, count = move || n, zero => "zero", one => "one", two => "two", few => "few", many => "many", _ => "other").to_string());
                 }
             }
         }
